@@ -159,6 +159,9 @@ def gen_compound(rng, depth, leaf):
         return leaf()
     a = gen_compound(rng, rng.randint(0, depth - 1), leaf)
     b = gen_compound(rng, rng.randint(0, depth - 1), leaf)
+    # concentric operands (any order: the first need not lie inside the second)
+    if 'c' in a and 'c' in b and rng.random() < 0.25:
+        b['c'] = list(a['c'])
     return {'kind': 'compound', 'op': rng.choice(['and', 'or', 'xor']), 'a': a, 'b': b,
             'include': rng.choice(INCLUDES)}
 
